@@ -201,7 +201,7 @@ func (c *Ctl) Settle() {
 		}
 		if ok {
 			stable++
-			if stable >= 2 {
+			if stable >= 3 {
 				c.mu.Lock()
 				for _, th := range c.threads {
 					if _, alive := st[th.goid]; !alive && th.goid != 0 {
